@@ -147,3 +147,13 @@ PROPS['C14'] = dict(
              'final never left for non-final': 'P',
              'DONE iff ran until its run time, CANCELED iff canceled, else FAILED (agent side)': 'P',
              'bootstrap_0.sh': 'N'})
+
+PROPS['C17'] = dict(
+    level='other',
+    claim='(a) every shipped platform entry (63, re-read on every run), with the ResourceConfig defaults applied, names a resource manager, launch methods, scheduler, executor and agent configuration that exist in the factories / on disk, has a defined default schema and well-formed schemas; the factory key sets and classes are read from the AST: decided exhaustively. (b) the node/core/GPU sizing arithmetic of _prepare_pilot is not yet under contract',
+    note='sizing arithmetic (PMGRLaunchingComponent._prepare_pilot slice) not built yet',
+    assumptions=['A11'],
+    explanation='finite obligation family over the shipped configuration files x factories',
+    clauses={'every platform x schema resolves to existing code': 'P (finite, exhaustive)',
+             'smallest number of whole nodes covering cores/GPUs + backup': 'not yet built',
+             'agent told the same figures': 'not yet built'})
